@@ -352,6 +352,9 @@ EXT_PROBES = [
     # block-set filter argument read before a later assignment (fixed in /repo, see known_findings.d/C03.json)
     ([("setb", "b", [_say(("s", "q"))], ("rep", ("n", "c"))), _say(("n", "b")), ("set", "c", ("s", "Q"))], {"c": ("plain", "Z")}),
     ([("filt", ("rep", ("n", "c")), [_say(("s", "q"))]), ("set", "c", ("s", "Q"))], {"c": ("plain", "Z")}),
+    # round 9 (fixed in /repo): assignments in the body of a filter block / block set leaked into the tag's arguments
+    ([("set", "c", ("s", "o")), ("filt", ("rep", ("n", "c")), [("set", "c", ("s", "i")), _say(("s", "A"))])], {}),
+    ([("set", "c", ("s", "o")), ("setb", "b", [("set", "c", ("s", "i")), _say(("s", "A"))], ("rep", ("n", "c"))), _say(("n", "b"))], {}),
 ]
 
 
@@ -359,6 +362,8 @@ def extended_stream(run_, ctx, rng, keep):
     env = ext_env(run_.jinja2)
     for p, ds in EXT_PROBES:
         ext_judge(ctx, env, p, ds, kind="ext-probe")
+    for p, ds in R.special_sweep():
+        ext_judge(ctx, env, p, ds, kind="ext-special")
     n = ctx.size(1200, 10000)
     for i in range(n):
         g = R.EGen(rng, size=rng.randint(3, ctx.size(14, 22)))
